@@ -143,6 +143,19 @@ M: List[Tuple[str, str, str, str, str]] = [
     ('c14-port-int-lenient', 'C14', 'proxy/http/url.py',
      "            return username, password, COLON.join(parts[:-1]), int(parts[-1])",
      "            return username, password, COLON.join(parts[:-1]), int(parts[-1]) if parts[-1].isdigit() else None"),
+    # ---- C13 ---------------------------------------------------------------
+    ('c13-prefix-without-separator', 'C13', 'proxy/http/server/web.py',
+     "not target.startswith(root.rstrip(os.sep) + os.sep)", "not target.startswith(root)"),
+    ('c13-revert-fix', 'C13', 'proxy/http/server/web.py',
+     "        if target != root and not target.startswith(root.rstrip(os.sep) + os.sep):\n            self.client.queue(NOT_FOUND_RESPONSE_PKT)\n            return\n", ""),
+    ('c13-query-not-stripped', 'C13', 'proxy/http/server/web.py',
+     "        path = text_(path).split('?', 1)[0]\n        # Resolve", "        path = text_(path).split('?x', 1)[0]\n        # Resolve"),
+    ('c13-check-only-leading-dotdot', 'C13', 'proxy/http/server/web.py',
+     "        target = os.path.abspath(self.flags.static_server_dir + path)",
+     "        target = os.path.abspath(self.flags.static_server_dir + path) if path.startswith('/..') else root"),
+    ('c13-gzip-truncated', 'C13', 'proxy/http/responses.py',
+     "            body=gzip.compress(content)\n            if do_compress and content",
+     "            body=gzip.compress(content[:2048])\n            if do_compress and content"),
 ]
 
 
